@@ -356,6 +356,18 @@ def r10_6(ctx: Ctx):
             st_p, why = INCONCLUSIVE, f"match predicate `{norm(inner)[:80]}` uses non-default tolerances"
         else:
             why = f"match predicate `{norm(inner)[:80]}` is not recognisable as any-row(all-coordinates(isclose))"
+    if st_p != OK:
+        # vectorised forms: look for the reduction order over the isclose table anywhere in the loop (locals substituted)
+        import copy
+
+        from ..core import _Subst
+
+        for n_ in ast.walk(loops[0]):
+            if isinstance(n_, ast.Call) and norm(n_.func) in ("np.all", "np.any"):
+                tt = canon(_Subst(defs, 4).visit(copy.deepcopy(n_)))
+                if tt.startswith("np.all(np.any(np.isclose("):
+                    st_p, why = VIOLATION, f"`{norm(n_)[:70]}` reduces the isclose table with any() first and all() second: a candidate is treated as already sprouted when each of its coordinates matches that coordinate of SOME seed, so candidates that differ from every seed are rejected"
+                    break
     obs.append(ctx.ob("R10.6", f, stores[0], status=st_p, detail="kept iff no existing seed row is close in all coordinates" if st_p == OK else f"SkipSameSprout: {why}", construct="keep-pred"))
     if seeds_name:
         sd = defs.get(seeds_name, [])
